@@ -26,6 +26,7 @@ type c07Input struct {
 
 type C07Plan struct {
 	Coincide int        `json:"coincide"` // rounds of the three-way coincidence phase
+	LateJoin bool       `json:"late_join"`
 	Inputs   []c07Input `json:"inputs"`
 	Shrink   []string   `json:"_shrink"`
 }
@@ -58,6 +59,7 @@ func genC07(seed uint64, tier string) any {
 	if r.Bool(0.5) {
 		p.Coincide = r.Range(2, 6)
 	}
+	p.LateJoin = r.Bool(0.5)
 	return p
 }
 
@@ -344,6 +346,32 @@ func runC07(t *testing.T, planAny any, res *simnet.Result) {
 			simnet.Quiesce()
 			if !alive(i, in.Kind) {
 				break
+			}
+		}
+		// ---- a node that the victim first hears about through relayed updates - the latest of them with no connection
+		// list at all - and that then connects itself
+		if p.LateJoin && len(res.Violations) == 0 && dsess.Open() {
+			if !dEst {
+				_ = dsess.Send(hello(dctx))
+				time.Sleep(300 * time.Millisecond)
+				dEst = true
+			}
+			name := fmt.Sprintf("late%d", simnet.H(res.Seed, "late")%1000)
+			for i, conns := range []string{`{"zd":1}`, simnet.Pick(simnet.NewRng(res.Seed, "latejoin"), []string{`null`, `{}`, `null`})} {
+				raw := fmt.Sprintf(`{"NodeID":%q,"UpdateID":%q,"UpdateEpoch":%d,"UpdateSequence":%d,"Connections":%s,"ForwardingNode":"zd","SuspectedDuplicate":0}`,
+					name, dctx.nextID(), 9<<24, i+1, conns)
+				_ = dsess.Send(append([]byte{simnet.MsgRoute}, raw...))
+				time.Sleep(150 * time.Millisecond)
+			}
+			if _, ls, err := m.AttachScripted(v, simnet.LinkCfg{Name: "SL", Latency: time.Millisecond + 613*time.Nanosecond, FIFO: true}, "zl", 1); err == nil {
+				b, _ := json.Marshal(&simnet.RoutingUpdate{NodeID: name, UpdateID: dctx.nextID(), UpdateEpoch: 9 << 24, UpdateSequence: 3, Connections: map[string]float64{"v": 1}, ForwardingNode: name})
+				_ = ls.Send(append([]byte{simnet.MsgRoute}, b...))
+				time.Sleep(500 * time.Millisecond)
+				simnet.Quiesce()
+				res.Add("probe_described_then_joined", 1)
+				alive(len(p.Inputs), "late-join")
+				_ = ls.Close()
+				time.Sleep(200 * time.Millisecond)
 			}
 		}
 		// ---- three things in one instant: the victim's route flood (100 ms after a new peer was admitted), the first
